@@ -79,12 +79,27 @@ func (e *Env) evalString(s string) (v Value, err error) {
 }
 
 func (e *Env) evalBool(s string) (Term, error) {
+	var facts []Term
+	prev := e.x.specFacts
+	e.x.specFacts = &facts
 	v, err := e.evalString(s)
+	e.x.specFacts = prev
 	if err != nil {
 		return Term{}, err
 	}
 	if len(v.L) != 1 || v.L[0].Sort != sBool {
 		return Term{}, fmt.Errorf("expression %q is not boolean", s)
+	}
+	// model axioms about references read by the clause hold unconditionally: add them to the path
+	// condition (they constrain nothing but the allocation order of references)
+	if e.st != nil && !e.lemma {
+		seen := map[string]bool{}
+		for _, f := range facts {
+			if !seen[f.S] {
+				seen[f.S] = true
+				e.st.assume(f)
+			}
+		}
 	}
 	return v.L[0], nil
 }
@@ -825,6 +840,13 @@ func (e *Env) evalCall(n *ast.CallExpr) Value {
 			return scalar(bt, e.x.uf(fmt.Sprintf("pure:%s:%d", name, 0), sBool, flat...))
 		}
 		return scalar(it, e.x.uf(fmt.Sprintf("pure:%s:%d", name, 0), sInt, flat...))
+	case "freshsince":
+		// freshsince(x): x was allocated after the state that old() refers to (in an extern's ensures: during the call)
+		v := e.eval(n.Args[0])
+		if e.oldState == nil {
+			return e.fail("freshsince() needs an old state")
+		}
+		return scalar(bt, mkCmp(">", v.L[0], e.oldState.top))
 	case "allocated":
 		// allocated(p): p was allocated by the current function activation
 		v := e.eval(n.Args[0])
